@@ -200,8 +200,22 @@ def search(ctx, budget):
             kind = "path"
         else:
             order = 2 + i % 3
-            fam = ["int", "grid", "arch", "elevated", "dyadic", "float", "collinear", "coincident", "arch"][(i // 3) % 9]
-            inp = {"pts": oc.rand_seg_pts(rng, order, fam)}
+            fam = ["int", "grid", "arch", "elevated", "dyadic", "float", "collinear", "coincident", "arch", "double-root"][(i // 3) % 10]
+            if fam == "double-root":
+                # a cubic whose x- (or y-) derivative touches zero without changing sign: control differences d0, d1, d2 with d1^2 = d0 d2,
+                # d0 and d2 of one sign, d1 of the other (exact in floats for small integers)
+                u, v, k = rng.randint(1, 4), rng.randint(1, 4), rng.choice([1, 1, 2, 3])
+                d0, d1, d2 = k * u * u, -k * u * v, k * v * v
+                sgn = rng.choice([-1, 1])
+                xs = [0.0, float(sgn * d0), float(sgn * (d0 + d1)), float(sgn * (d0 + d1 + d2))]
+                other = [float(rng.randint(-20, 20)) for _ in range(4)] if rng.random() < 0.5 else [0.0, 1.0, 2.0, 3.0]
+                x0, y0 = float(rng.randint(-30, 30)), float(rng.randint(-30, 30))
+                pts = [(x0 + a, y0 + b) for a, b in zip(xs, other)]
+                if rng.random() < 0.5:
+                    pts = [(b, a) for a, b in pts]
+                inp = {"pts": pts}
+            else:
+                inp = {"pts": oc.rand_seg_pts(rng, order, fam)}
             kind = "seg"
         msg = run_one(kind, inp)
         if msg == "skip":
